@@ -731,45 +731,57 @@ def replay(spec):
                 if len(imu_) != len(tt) or not np.array_equal(imu_.values[0], imu_.values[1]):
                     fails.append('increment sensor: one row per stamp with the first sample duplicated does not hold')
         return {'violated': bool(fails), 'detail': fails}
-    # smooth analytic motion
+    # smooth analytic motion, around the replayed point (if it names a position) and around fixed
+    # bases in both hemispheres and both east/west half-spaces
     form = (spec.get('params') or {}).get('form', 'position')
-    dt = 0.02
-    t = np.arange(0, 8, dt)
-    lat = 50 + 1e-4 * np.sin(0.5 * t) + 2e-5 * t
-    lon = 30 + 2e-4 * np.cos(0.4 * t)
-    alt = 1000 + 5 * np.sin(0.3 * t)
-    rph = np.vstack([10 * np.sin(0.7 * t), 5 * np.cos(0.5 * t), 100 + 20 * np.sin(0.2 * t)]).T
-    lla = np.vstack([lat, lon, alt]).T
-    if chk == 'stationary':
-        lla[:] = [50.0, 30.0, 1000.0]
-        rph[:] = [10.0, -20.0, 100.0]
-    vel = None
-    if form == 'position+velocity':
-        tr0, _ = sim.generate_imu(t, lla, rph, None, 'rate')
-        vel = tr0[['VN', 'VE', 'VD']].values
-    traj, imu = sim.generate_imu(t, lla, rph, vel, 'rate')
-    # independent oracle: central differences of the ECEF position and attitude (Earth frame)
-    r_e = transform.lla_to_ecef(lla)
-    W = np.array([0, 0, earth.RATE])
-    k = np.arange(50, len(t) - 50)
-    v_e = (r_e[k + 1] - r_e[k - 1]) / (2 * dt)
-    a_e = (r_e[k + 1] - 2 * r_e[k] + r_e[k - 1]) / dt**2
-    C_en = transform.mat_en_from_ll(lla[:, 0], lla[:, 1])
-    C_nb = transform.mat_from_rph(rph)
-    C_eb = np.einsum('kij,kjl->kil', C_en, C_nb)
-    g_e = earth.gravitation_ecef(lla)
-    f_e = a_e + 2 * np.cross(W, v_e) + np.cross(W, np.cross(W, r_e[k])) - g_e[k]
-    f_b = np.einsum('kji,kj->ki', C_eb[k], f_e)
-    Cd = (C_eb[k + 1] - C_eb[k - 1]) / (2 * dt)
-    Wm = np.einsum('kji,kjl->kil', C_eb[k], Cd)
-    w_b = np.vstack([Wm[:, 2, 1], Wm[:, 0, 2], Wm[:, 1, 0]]).T + np.einsum('kji,j->ki', C_eb[k], W)
-    ea = np.abs(imu[['accel_x', 'accel_y', 'accel_z']].values[k] - f_b).max()
-    eg = np.abs(imu[['gyro_x', 'gyro_y', 'gyro_z']].values[k] - w_b).max()
-    if ea > 2e-3:
-        fails.append('accelerometer readings differ from the specific force of the motion by %.3g m/s^2' % ea)
-    if eg > 2e-5:
-        fails.append('gyro readings differ from the body rate of the motion by %.3g rad/s' % eg)
-    vn = np.einsum('kji,kj->ki', C_en[k], v_e)
-    if np.abs(traj[['VN', 'VE', 'VD']].values[k] - vn).max() > 1e-3:
-        fails.append('returned velocity_n differs from C_en^T d/dt r_e by %.3g' % np.abs(traj[['VN', 'VE', 'VD']].values[k] - vn).max())
+    pt = spec.get('point') or {}
+    bases = [(50.0, 30.0, 1000.0), (-35.0, -100.0, 50.0)]
+    plat = pt.get('lat0_0', pt.get('lat'))
+    if plat is not None and abs(plat) <= 84.9:
+        bases.insert(0, (float(plat), float(pt.get('lon0_0', pt.get('lon', 30.0))), float(pt.get('alt0_0', pt.get('alt', 1000.0)))))
+    for (lat0, lon0, alt0) in bases:
+        dt = 0.02
+        t = np.arange(0, 8, dt)
+        lat = lat0 + 1e-4 * np.sin(0.5 * t) + 2e-5 * t
+        lon = lon0 + 2e-4 * np.cos(0.4 * t)
+        alt = alt0 + 5 * np.sin(0.3 * t)
+        rph = np.vstack([10 * np.sin(0.7 * t), 5 * np.cos(0.5 * t), 100 + 20 * np.sin(0.2 * t)]).T
+        lla = np.vstack([lat, lon, alt]).T
+        if chk == 'stationary':
+            lla[:] = [lat0, lon0, alt0]
+            rph[:] = [10.0, -20.0, 100.0]
+        vel = None
+        if form == 'position+velocity':
+            tr0, _ = sim.generate_imu(t, lla, rph, None, 'rate')
+            vel = tr0[['VN', 'VE', 'VD']].values
+        traj, imu = sim.generate_imu(t, lla, rph, vel, 'rate')
+        # independent oracle: central differences of the ECEF position and attitude (Earth frame);
+        # the gravitation is rebuilt from the normal gravity and the centrifugal term, NOT taken from
+        # earth.gravitation_ecef (which generate_imu itself uses)
+        r_e = transform.lla_to_ecef(lla)
+        W = np.array([0, 0, earth.RATE])
+        k = np.arange(50, len(t) - 50)
+        v_e = (r_e[k + 1] - r_e[k - 1]) / (2 * dt)
+        a_e = (r_e[k + 1] - 2 * r_e[k] + r_e[k - 1]) / dt**2
+        C_en = transform.mat_en_from_ll(lla[:, 0], lla[:, 1])
+        C_nb = transform.mat_from_rph(rph)
+        C_eb = np.einsum('kij,kjl->kil', C_en, C_nb)
+        g_n = np.zeros((len(t), 3))
+        g_n[:, 2] = earth.gravity(lla[:, 0], lla[:, 2])
+        g_e = np.einsum('kij,kj->ki', C_en, g_n) + np.cross(W, np.cross(W, r_e))
+        f_e = a_e + 2 * np.cross(W, v_e) + np.cross(W, np.cross(W, r_e[k])) - g_e[k]
+        f_b = np.einsum('kji,kj->ki', C_eb[k], f_e)
+        Cd = (C_eb[k + 1] - C_eb[k - 1]) / (2 * dt)
+        Wm = np.einsum('kji,kjl->kil', C_eb[k], Cd)
+        w_b = np.vstack([Wm[:, 2, 1], Wm[:, 0, 2], Wm[:, 1, 0]]).T + np.einsum('kji,j->ki', C_eb[k], W)
+        ea = np.abs(imu[['accel_x', 'accel_y', 'accel_z']].values[k] - f_b).max()
+        eg = np.abs(imu[['gyro_x', 'gyro_y', 'gyro_z']].values[k] - w_b).max()
+        where = ' (motion around lat %.3f lon %.3f alt %.0f)' % (lat0, lon0, alt0)
+        if ea > 2e-3:
+            fails.append('accelerometer readings differ from the specific force of the motion by %.3g m/s^2' % ea + where)
+        if eg > 2e-5:
+            fails.append('gyro readings differ from the body rate of the motion by %.3g rad/s' % eg + where)
+        vn = np.einsum('kji,kj->ki', C_en[k], v_e)
+        if np.abs(traj[['VN', 'VE', 'VD']].values[k] - vn).max() > 1e-3:
+            fails.append('returned velocity_n differs from C_en^T d/dt r_e by %.3g' % np.abs(traj[['VN', 'VE', 'VD']].values[k] - vn).max() + where)
     return {'violated': bool(fails), 'detail': fails}
